@@ -428,6 +428,131 @@ def pending_invariant_rule(chk, prog):
                       "are a multiple of the buffer size)")
 
 
+def finish_reachable_rule(chk, prog):
+    """K1-finish: the flush loop of the compressing stream calls process_data in finishing mode until it answers
+    XFRM_STREAM_END.  With all input consumed that only terminates if the wrapper (a) still calls into the library when
+    in_size == 0 (the call is not guarded by in_size > 0), or (b) answers END itself once in_size == 0 in a flushing mode.
+    A wrapper that does neither returns 'ok, nothing done' forever as soon as the library's last output did not fit into
+    one buffer."""
+    LIB = ("deflate", "inflate", "lzma_code", "BZ2_bzCompress", "BZ2_bzDecompress", "ZSTD_compressStream2", "ZSTD_decompressStream",
+           "ZSTD_compressStream", "ZSTD_endStream")
+    n = 0
+    for f in prog.slot_impls(("struct.xfrm_stream_t", "process_data")):
+        if isinstance(f, ExternFn) or f.decl:
+            continue
+        f.build()
+        chk.analysed(f)
+        n += 1
+        insz = f.params[2]
+        web = {id(insz)}
+        work = [insz]
+        while work:
+            v = work.pop()
+            for u in f.uses.get(v, []):
+                if u.op in ("phi", "sub", "zext", "sext", "trunc") and id(u) not in web:
+                    web.add(id(u))
+                    work.append(u)
+
+        def on_insize(cond):
+            if not (cond.is_inst and cond.op == "icmp" and cond.ops[1].is_const and cond.ops[1].is_int and cond.ops[1].sval == 0):
+                return None
+            x = cond.ops[0]
+            while x.is_inst and x.op in ("zext", "sext", "trunc"):
+                x = x.ops[0]
+            if id(x) not in web:
+                return None
+            return cond.pred
+        calls = [c for c in f.calls() if norm_callee(c.callee) in LIB]
+        compress_calls = [c for c in calls if norm_callee(c.callee) in ("deflate", "lzma_code", "BZ2_bzCompress", "ZSTD_compressStream2",
+                                                                         "ZSTD_compressStream", "ZSTD_endStream")]
+        a_ok = False
+        for c in compress_calls:
+            needs_input = False
+            for (cond, outcome, br) in f.guards_at(c.bb):
+                p = on_insize(cond)
+                if p is None:
+                    continue
+                if (p in ("ugt", "ne") and outcome is True) or (p in ("eq", "ule") and outcome is False):
+                    needs_input = True
+            if not needs_input:
+                a_ok = True
+        b_ok = False
+        from ..errflow import ret_sources
+        for (v, b) in ret_sources(f):
+            w = strip_casts(v)
+            if not (w.is_const and w.is_int and w.sval > 0):
+                continue
+            for (cond, outcome, br) in f.guards_at(b):
+                p = on_insize(cond)
+                if p == "eq" and outcome is True or p in ("ne", "ugt") and outcome is False:
+                    b_ok = True
+        inst = "%s:%s" % (f.unit.src.split("/")[-1], f.name)
+        if a_ok:
+            chk.ok("K1-finish", inst, compress_calls[0] if compress_calls else f, "the library is still called in finishing mode when no input is left")
+        elif b_ok:
+            chk.ok("K1-finish", inst, f, "the wrapper itself reports the end of the stream once the input is used up in a flushing mode")
+        else:
+            chk.violation("K1-finish", inst, compress_calls[0] if compress_calls else f, "the library is only called while in_size > 0 and the "
+                          "wrapper never reports the end on its own: when the final flush needs more than one output buffer the next "
+                          "call does nothing and answers 'ok', and the flushing loop of the output stream never ends")
+    return n
+
+
+def error_now_rule(chk, prog):
+    """a codec error is reported by the very call that observed it: in the decompressing stream (and the compressing one)
+    the edge on which process_data answered XFRM_STREAM_ERROR cannot reach 'return 0' -- data decoded before the error must
+    not be handed out as good, the consumer may stop reading (end-of-archive marker) before it ever asks again"""
+    from ..errflow import ret_sources
+    n = 0
+    for f in prog.functions():
+        if f.decl or not f.unit.src.startswith("lib/xfrm/src/") or "stream" not in f.unit.src:
+            continue
+        f.build()
+        for c in f.calls():
+            if slot_call(c) != ("struct.xfrm_stream_t", "process_data"):
+                continue
+            edges = []
+            for u in f.uses.get(c, []):
+                if u.op != "icmp" or not (u.ops[1].is_const and u.ops[1].is_int):
+                    continue
+                k = u.ops[1].sval
+                for br in f.uses.get(u, []):
+                    if br.op != "br" or len(br.x["succ"]) != 2:
+                        continue
+                    if u.pred == "eq" and k < 0:
+                        edges.append(br.x["succ"][0])
+                    elif u.pred == "ne" and k < 0:
+                        edges.append(br.x["succ"][1])
+                    elif u.pred == "slt" and k == 0:
+                        edges.append(br.x["succ"][0])
+                    elif u.pred == "sge" and k == 0:
+                        edges.append(br.x["succ"][1])
+            n += 1
+            chk.analysed(f)
+            inst = "%s:process_data" % f.name
+            if not edges:
+                chk.violation("K1-errnow", inst, c, "the result of process_data is never compared with the error code")
+                continue
+            zero = {b for (v, b) in ret_sources(f) if strip_casts(v).is_const and strip_casts(v).is_int and strip_casts(v).sval == 0}
+            bad = None
+            for e in edges:
+                seen, stack = set(), [e]
+                while stack and bad is None:
+                    b = stack.pop()
+                    if b in seen:
+                        continue
+                    seen.add(b)
+                    if b in zero:
+                        bad = b
+                    stack.extend(b.succs)
+            if bad is None:
+                chk.ok("K1-errnow", inst, c, "from the edge where the codec reported an error no 'return 0' is reachable")
+            else:
+                chk.violation("K1-errnow", inst, bad.term, "after process_data reported an error the function can still return 0 (success): "
+                              "output decoded before the error is handed out as good data and the error is deferred to a call that may never come")
+    return n
+
+
 def _fields(v):
     from ..effects import fields_in_slice
     return fields_in_slice(v)
@@ -453,6 +578,11 @@ def run(chk):
     trailer_rule(chk, load_program("sqfs2tar"))
     member_rule(chk, prog)
     pending_invariant_rule(chk, load_program("sqfs2tar"))
+    finish_reachable_rule(chk, load_program("sqfs2tar"))
+    chk.floor("K1-finish", 4)
+    error_now_rule(chk, load_program("tar2sqfs"))
+    error_now_rule(chk, load_program("sqfs2tar"))
+    chk.floor("K1-errnow", 2)
     chk.floor("K-codec", 4)
     chk.floor("K10-offsets", 6)
     chk.floor("K12-finish", 4)
